@@ -267,11 +267,14 @@ func (srv *Server) tsigProvider() TsigProvider {
 	return nil
 }
 
-func (srv *Server) isStarted() bool {
+// serving reports whether the run that signals its end on the given channel
+// is still the one the server is started with. A run that has been shut down
+// stays shut down when the same Server is started again while it drains.
+func (srv *Server) serving(run chan struct{}) bool {
 	srv.lock.RLock()
-	started := srv.started
+	serving := srv.started && srv.shutdown == run
 	srv.lock.RUnlock()
-	return started
+	return serving
 }
 
 func makeUDPBuffer(size int) func() interface{} {
@@ -429,6 +432,10 @@ func (srv *Server) ShutdownContext(ctx context.Context) error {
 		rw.SetReadDeadline(aLongTimeAgo) // Unblock reads
 	}
 
+	// The channel of the run that is being shut down: a later start of the
+	// same Server replaces srv.shutdown.
+	shutdown := srv.shutdown
+
 	srv.lock.Unlock()
 
 	if testShutdownNotify != nil {
@@ -437,7 +444,7 @@ func (srv *Server) ShutdownContext(ctx context.Context) error {
 
 	var ctxErr error
 	select {
-	case <-srv.shutdown:
+	case <-shutdown:
 	case <-ctx.Done():
 		ctxErr = ctx.Err()
 	}
@@ -463,6 +470,11 @@ func (srv *Server) getReadTimeout() time.Duration {
 func (srv *Server) serveTCP(l net.Listener) error {
 	defer l.Close()
 
+	// Each run signals on its own channel, which also identifies it: the
+	// server may have been started again (init replaces srv.shutdown) while
+	// this run is still draining.
+	shutdown := srv.shutdown
+
 	if srv.NotifyStartedFunc != nil {
 		srv.NotifyStartedFunc()
 	}
@@ -470,13 +482,13 @@ func (srv *Server) serveTCP(l net.Listener) error {
 	var wg sync.WaitGroup
 	defer func() {
 		wg.Wait()
-		close(srv.shutdown)
+		close(shutdown)
 	}()
 
-	for srv.isStarted() {
+	for srv.serving(shutdown) {
 		rw, err := l.Accept()
 		if err != nil {
-			if !srv.isStarted() {
+			if !srv.serving(shutdown) {
 				return nil
 			}
 			if neterr, ok := err.(net.Error); ok && neterr.Temporary() {
@@ -489,7 +501,7 @@ func (srv *Server) serveTCP(l net.Listener) error {
 		srv.conns[rw] = struct{}{}
 		srv.lock.Unlock()
 		wg.Add(1)
-		go srv.serveTCPConn(&wg, rw)
+		go srv.serveTCPConn(&wg, rw, shutdown)
 	}
 
 	return nil
@@ -498,6 +510,9 @@ func (srv *Server) serveTCP(l net.Listener) error {
 // serveUDP starts a UDP listener for the server.
 func (srv *Server) serveUDP(l net.PacketConn) error {
 	defer l.Close()
+
+	// Each run signals on its own channel, see serveTCP.
+	shutdown := srv.shutdown
 
 	reader := Reader(defaultReader{srv})
 	if srv.DecorateReader != nil {
@@ -522,12 +537,12 @@ func (srv *Server) serveUDP(l net.PacketConn) error {
 	var wg sync.WaitGroup
 	defer func() {
 		wg.Wait()
-		close(srv.shutdown)
+		close(shutdown)
 	}()
 
 	rtimeout := srv.getReadTimeout()
 	// deadline is not used here
-	for srv.isStarted() {
+	for srv.serving(shutdown) {
 		var (
 			m    []byte
 			sPC  net.Addr
@@ -540,7 +555,7 @@ func (srv *Server) serveUDP(l net.PacketConn) error {
 			m, sPC, err = readerPC.ReadPacketConn(l, rtimeout)
 		}
 		if err != nil {
-			if !srv.isStarted() {
+			if !srv.serving(shutdown) {
 				return nil
 			}
 			if netErr, ok := err.(net.Error); ok && netErr.Temporary() {
@@ -563,7 +578,7 @@ func (srv *Server) serveUDP(l net.PacketConn) error {
 }
 
 // Serve a new TCP connection.
-func (srv *Server) serveTCPConn(wg *sync.WaitGroup, rw net.Conn) {
+func (srv *Server) serveTCPConn(wg *sync.WaitGroup, rw net.Conn, run chan struct{}) {
 	w := &response{tsigProvider: srv.tsigProvider(), tcp: rw}
 	if srv.DecorateWriter != nil {
 		w.writer = srv.DecorateWriter(w)
@@ -588,7 +603,7 @@ func (srv *Server) serveTCPConn(wg *sync.WaitGroup, rw net.Conn) {
 		limit = maxTCPQueries
 	}
 
-	for q := 0; (q < limit || limit == -1) && srv.isStarted(); q++ {
+	for q := 0; (q < limit || limit == -1) && srv.serving(run); q++ {
 		m, err := reader.ReadTCP(w.tcp, timeout)
 		if err != nil {
 			// TODO(tmthrgd): handle error
